@@ -35,6 +35,7 @@ type caseSpec struct {
 	TickUs            int    // OnTick interval; TickBusyUs: time spent inside OnTick
 	TickBusyUs        int
 	DelayUs           int    // between activity start and the shutdown request
+	UDPTarget         bool   // client, OnTraffic source: the Shutdown answer comes from the OnTraffic of a connected UDP socket
 	WerrBy            string // OnClose+writeerr source: the call that fails - write, writev, flush
 	WakeCallback      bool   // Wake source: the request carries a callback (that returns nil)
 	Backlog           int    // async requests queued behind a busy loop right before the request (Wake/OnTick sources)
@@ -43,8 +44,8 @@ type caseSpec struct {
 }
 
 func (c caseSpec) String() string {
-	return fmt.Sprintf("cfg: %s\n source=%s idle=%d streams=%d pending=%d dialers=%d asyncers=%d tick=%dus busy=%dus delay=%dus backlog=%d onCloseReturnsShutdown=%v onCloseClosesPartner=%v wakeWithCallback=%v failingWriteBy=%s",
-		c.Cfg, c.Source, c.Idle, c.Streams, c.Pending, c.Dialers, c.Asyncers, c.TickUs, c.TickBusyUs, c.DelayUs, c.Backlog, c.CloseSaysShutdown, c.ClosePartner, c.WakeCallback, c.WerrBy)
+	return fmt.Sprintf("cfg: %s\n source=%s idle=%d streams=%d pending=%d dialers=%d asyncers=%d tick=%dus busy=%dus delay=%dus backlog=%d onCloseReturnsShutdown=%v onCloseClosesPartner=%v wakeWithCallback=%v failingWriteBy=%s answerFromUDPSocket=%v",
+		c.Cfg, c.Source, c.Idle, c.Streams, c.Pending, c.Dialers, c.Asyncers, c.TickUs, c.TickBusyUs, c.DelayUs, c.Backlog, c.CloseSaysShutdown, c.ClosePartner, c.WakeCallback, c.WerrBy, c.UDPTarget)
 }
 
 type session struct {
@@ -319,6 +320,25 @@ func run(cs caseSpec) (fails, stalls []string, infra string, nt bool) {
 			all = append(all, c)
 		}
 	}
+	// a connected UDP socket of the client: its OnTraffic may be the one that answers Shutdown
+	var udpPeer *net.UDPConn
+	var udpState *cstate
+	if cs.UDPTarget && cs.Cfg.Client && infra == "" {
+		if up, err := net.ListenUDP("udp4", &net.UDPAddr{IP: net.ParseIP(fx.Host("udp4"))}); err == nil {
+			c := &cstate{s: s, role: "idle", closedCh: make(chan struct{})}
+			s.mu.Lock()
+			c.id = len(s.conns)
+			s.conns = append(s.conns, c)
+			s.mu.Unlock()
+			if _, err := e.Client().DialContext("udp4", up.LocalAddr().String(), fx.ConnHooks(c)); err == nil {
+				udpPeer, udpState = up, c
+				defer up.Close()
+			} else {
+				up.Close()
+				addF("VERIF-KEY:stop-connect Dial udp on a running client: %v", err)
+			}
+		}
+	}
 	if infra != "" {
 		_ = e.Stop()
 		return
@@ -426,7 +446,12 @@ func run(cs caseSpec) (fails, stalls []string, infra string, nt bool) {
 	case "OnOpen":
 		go func() { open("opener"); close(stopRet) }()
 	case "OnTraffic", "OnTraffic+close":
-		if target != nil {
+		if udpState != nil && udpState.gc != nil && cs.Source == "OnTraffic" {
+			// the datagram socket's OnTraffic answers
+			if la, err := net.ResolveUDPAddr("udp4", udpState.gc.LocalAddr().String()); err == nil {
+				_, _ = udpPeer.WriteToUDP([]byte{1}, la)
+			}
+		} else if target != nil {
 			peerMu.Lock()
 			_, _ = peers[0].Write([]byte{1})
 			peerMu.Unlock()
@@ -602,7 +627,7 @@ func drawCase(t *rapid.T) caseSpec {
 	}
 	srcs := []string{"engine.Stop", "engine.Stop", "pkg.Stop", "OnOpen", "OnTraffic", "OnTraffic+close", "OnClose", "OnClose+writeerr", "OnTick", "Wake", "OnBoot"}
 	if cs.Cfg.Client {
-		srcs = []string{"client.Stop", "client.Stop", "OnTraffic", "OnTraffic+close", "OnClose", "Wake", "OnTick"}
+		srcs = []string{"client.Stop", "client.Stop", "OnTraffic", "OnTraffic", "OnTraffic+close", "OnClose", "Wake", "OnTick"}
 	}
 	cs.Source = rapid.SampledFrom(srcs).Draw(t, "source")
 	if cs.Source == "OnTick" {
@@ -633,6 +658,12 @@ func drawCase(t *rapid.T) caseSpec {
 	cs.DelayUs = rapid.SampledFrom([]int{0, 100, 1000, 5000}).Draw(t, "delayUs")
 	if cs.Source == "Wake" {
 		cs.WakeCallback = rapid.Bool().Draw(t, "wakeCallback")
+	}
+	if cs.Source == "OnTraffic" && cs.Cfg.Client {
+		cs.UDPTarget = rapid.Bool().Draw(t, "udpTarget")
+		if cs.UDPTarget {
+			cs.Streams, cs.Asyncers = 0, 0 // no other OnTraffic may answer first
+		}
 	}
 	if cs.Source == "OnClose+writeerr" {
 		cs.WerrBy = rapid.SampledFrom([]string{"write", "writev", "writev", "flush"}).Draw(t, "failingWriteBy")
